@@ -157,6 +157,19 @@ def build(run):
         yield "CAPTURE I_ak (sum_a B_ka c_a)", lambda m, t, g: S(C.Product(X(C.Identity(t), a, k), S(C.Product(U("B", (t, t), k, a), U("c", (t,), a)), a)), k)
         yield "I_ak u_k with inner scope rebinding k", lambda m, t, g: S(C.Product(X(C.Identity(t), a, k), C.Product(U("u", (t,), k), S(C.Product(U("p", (t,), k), U("q", (t,), k)), k))), k)
         yield "I_0k u_k with inner scope rebinding k (fixed)", lambda m, t, g: S(C.Product(X(C.Identity(t), 0, k), C.Product(U("u", (t,), k), S(C.Product(U("p", (t,), k), U("q", (t,), k)), k))), k)
+        # one call, several deltas over the SAME summation Index object with different partner indices (components of one cached
+        # pull-back share their bound indices): any memoisation inside the pass must be keyed by the whole substitution
+        yield "shared k: (sum_k I_ak u_k)*(sum_k I_bk v_k)", lambda m, t, g: C.Product(S(C.Product(X(C.Identity(t), a, k), U("u", (t,), k)), k),
+                                                                                      S(C.Product(X(C.Identity(t), b, k), U("v", (t,), k)), k))
+        yield "shared k: (sum_k I_0k u_k)*(sum_k I_1k u_k)", lambda m, t, g: C.Product(S(C.Product(X(C.Identity(t), 0, k), U("u", (t,), k)), k),
+                                                                                      S(C.Product(X(C.Identity(t), 1, k), U("u", (t,), k)), k))
+        yield "shared k: [sum_k I_0k u_k, sum_k I_1k u_k]", lambda m, t, g: C.ListTensor(S(C.Product(X(C.Identity(t), 0, k), U("u", (t,), k)), k),
+                                                                                        S(C.Product(X(C.Identity(t), 1, k), U("u", (t,), k)), k))
+        yield "shared k,b: (sum_k sum_b K_0k J_kb u_b)*(sum_k sum_b K_1k J_kb u_b)", lambda m, t, g: C.Product(
+            S(S(C.Product(C.Product(X(C.JacobianInverse(m), 0, k), X(C.Jacobian(m), k, b)), U("u", (t,), b)), k), b),
+            S(S(C.Product(C.Product(X(C.JacobianInverse(m), 1, k), X(C.Jacobian(m), k, b)), U("u", (t,), b)), k), b))
+        yield "shared b: (sum_b I_ab u_b) + (sum_b I_jb u_b) g_j...", lambda m, t, g: C.Product(S(C.Product(X(C.Identity(t), a, b), U("u", (t,), b)), b),
+                                                                                              S(C.Product(X(C.Identity(t), j, b), U("u", (t,), b)), b))
         # realistic: grad of a contravariant Piola mapped function contracted: K_ak (J_kb r_b)/detJ ...
         yield "piola-div-like", lambda m, t, g: S(S(C.Product(C.Product(X(C.JacobianInverse(m), a, k), C.Division(X(C.Jacobian(m), k, b), C.JacobianDeterminant(m))), U("r", (t, t), a, b)), b), a) if False else \
             S(S(C.Product(C.Product(X(C.JacobianInverse(m), a, k), X(C.Jacobian(m), k, b)), C.Product(C.Division(C.IntValue(1), C.JacobianDeterminant(m)), U("r", (t, t), a, b))), k), b)
@@ -186,7 +199,7 @@ def build(run):
     # individual traversals on the patterns they match (so a defect masked by a later pass is still seen)
     for nm, bld in pats[:14]:
         ob(f"JacobianCanceller/{nm}", "tri2d", bld, [CJ.JacobianCanceller])
-    for nm, bld in pats[14:23]:
+    for nm, bld in pats[14:28]:
         ob(f"IdentityEliminator/{nm}", "tri2d", bld, [CJ.IdentityEliminator])
 
     # ---- _as_base_exponent: den f == den(base)^exponent, no sign assumption
